@@ -26,7 +26,10 @@ KINDS = ["next_corner", "previous_corner", "opposite_corner", "corner_to_half_ed
          "vertex_to_vertices", "vertex_to_faces", "vertex_to_corners", "vertex_to_edges", "vertex_to_corner_in_face",
          "face_to_vertices", "face_to_edges", "face_to_corners", "face_to_first_corner", "face_to_faces", "in_face_index",
          "face_id", "edge_id", "other_edge_end", "edge_to_vertices", "is_edge_on_border", "is_vertex_on_border",
-         "boundary_edges", "boundary_vertices", "is_triangular", "clear_caches", "ith_vertex_of_face", "poke_invalid"]
+         "boundary_edges", "boundary_vertices", "is_triangular", "clear_caches", "ith_vertex_of_face", "poke_invalid", "chained"]
+
+# queries whose arguments are the library's own answers, handed on exactly as they came (whatever integer / sequence types it uses)
+CHAINED = ("half-edge-of-corner", "vertices-of-face", "ends-of-edge", "ring-of-vertex", "walk-around-face")
 
 
 @st.composite
@@ -52,11 +55,74 @@ def case_strategy(draw, max_faces=60):
             # how the mesh object under test is produced: directly, or written to a file and loaded back
             "via": draw(st.sampled_from([None, None, None, "obj", "mesh", "geogram_ascii"])),
             # element ids handed to the queries as numpy integers (what loops over numpy arrays produce); face rows as list / tuple / numpy
-            "np_ids": draw(st.integers(0, 3)) == 0, "form": draw(st.sampled_from(["list", "list", "tuple", "numpy"])),
+            # (int64 / int32: both are what numpy index arrays hold, depending on the platform and on where the array comes from)
+            "id_type": draw(st.sampled_from(["int", "int", "int", "int", "int64", "int32"])), "form": draw(st.sampled_from(["list", "list", "tuple", "numpy"])),
             # a vertex attribute called "border" (the name the mesh uses for its own flags) already on the mesh, with arbitrary flags;
             # the library-wide switch that makes create_attribute hand back an existing attribute
             "pre_border": draw(st.sampled_from([None, None, None, "bool", "bool", "int"])), "pre_border_seed": draw(st.integers(0, 1000)),
             "dup_warn": draw(st.integers(0, 3)) == 0}
+
+
+# how integer ids are handed to the queries: plain int, or the numpy integer types loops over index arrays produce
+ID_TYPES = ("int", "int64", "int32")
+
+# how the vertices of a face are handed to face_id: unpacked integers, ONE re-iterable container, or ONE one-shot iterator
+FACE_ID_FORMS = ["unpacked", "list", "tuple", "numpy", "set", "frozenset", "dict_keys", "deque", "own-row",
+                 "iter", "generator", "map", "reversed", "chain"]
+ONE_SHOT_FORMS = ("iter", "generator", "map", "reversed", "chain")
+REITERABLE_FORMS = ("list", "tuple", "numpy", "set", "frozenset", "dict_keys", "deque", "own-row")
+NONFACE_VARIANTS = ("arbitrary-triple", "face-minus-one-vertex", "face-plus-one-vertex")
+
+
+def id_type_of(case):
+    case = case or {}
+    return case.get("id_type") or ("int64" if case.get("np_ids") else "int")
+
+
+def id_conv(case):
+    """None (plain int) or the numpy integer type the ids of this case are converted to"""
+    t = id_type_of(case)
+    if t == "int":
+        return None
+    import numpy as np
+    return {"int64": np.int64, "int32": np.int32}[t]
+
+
+def face_id_form(q):
+    """the argument form a face_id query [kind, a, b, c] uses (a function of the query alone)"""
+    return FACE_ID_FORMS[(q[3] // 4) % len(FACE_ID_FORMS)]
+
+
+def face_id_args(form, elems, own_row, rnd):
+    """the positional arguments of face_id for vertex ids `elems` (a list) in the given form. own_row: the mesh's own row of that
+    face (or None). One-shot forms can be read once only - a fresh one is made for every call."""
+    if form == "unpacked":
+        return tuple(elems)
+    if form == "own-row" and own_row is None:
+        form = "list"
+    if form == "list": one = list(elems)
+    elif form == "tuple": one = tuple(elems)
+    elif form == "numpy":
+        import numpy as np
+        one = np.array([int(x) for x in elems], dtype=(np.int32 if rnd.randrange(2) else np.int64))
+    elif form == "set": one = set(elems)
+    elif form == "frozenset": one = frozenset(elems)
+    elif form == "dict_keys": one = dict.fromkeys(elems).keys()
+    elif form == "deque":
+        import collections
+        one = collections.deque(elems)
+    elif form == "own-row": one = own_row
+    elif form == "iter": one = iter(list(elems))
+    elif form == "generator": one = (x for x in list(elems))
+    elif form == "map": one = map(int, list(elems))
+    elif form == "reversed": one = reversed(list(elems))
+    elif form == "chain":
+        import itertools
+        k = rnd.randrange(len(elems) + 1)
+        one = itertools.chain(list(elems)[:k], list(elems)[k:])
+    else:
+        raise AssertionError(form)
+    return (one,)
 
 
 def pick_pair(ref, medges, a, b):
@@ -73,12 +139,12 @@ def do_query(m, ref, medges, eid, sort_on, q, ctx, where):
     C = m.connectivity
     nV, nF, nC = ref.nV, len(ref.F), ref.nC
     sig = "q:" + kind
-    np_ids = bool((getattr(ctx, "case", None) or {}).get("np_ids"))
+    conv = id_conv(getattr(ctx, "case", None))
+    in_sequence = where.startswith("query")
 
     def call(f, *args):
-        if np_ids:
-            import numpy as _np
-            args = tuple(_np.int64(x) if (isinstance(x, int) and not isinstance(x, bool)) else x for x in args)
+        if conv is not None:
+            args = tuple(conv(x) if (isinstance(x, int) and not isinstance(x, bool)) else x for x in args)
         ok, val = ctx.call(sig, f, *args)
         return ok, val
 
@@ -105,7 +171,11 @@ def do_query(m, ref, medges, eid, sort_on, q, ctx, where):
             ctx.check(r == ref.direct_face(u, v), sig, f"{where}: direct_face({u},{v}) = {r!r}, expected {ref.direct_face(u, v)!r}")
     elif kind == "direct_face_inds":
         u, v = pick_pair(ref, medges, a, b)
-        ok, r = call(C.direct_face, u, v, True)
+        # the flag by position (in-repo callers) or by its documented name
+        if (a + b) % 3 == 0:
+            ok, r = call(lambda x, y: C.direct_face(x, y, return_inds=True), u, v)
+        else:
+            ok, r = call(C.direct_face, u, v, True)
         if ok:
             ctx.check(tuple(r) == ref.direct_face_inds(u, v), sig, f"{where}: direct_face({u},{v},True) = {r!r}, expected {ref.direct_face_inds(u, v)!r}")
     elif kind == "edge_to_faces":
@@ -125,7 +195,10 @@ def do_query(m, ref, medges, eid, sort_on, q, ctx, where):
                 exp = f2 if (F == f1 and f1 is not None) else f1 if (F == f2 and f2 is not None) else None
                 ctx.check(r == exp, sig, f"{where}: opposite_face({u},{v},{F}) = {r!r}, expected {exp!r}")
         else:
-            ok, r = call(C.opposite_face, u, v, F, True)
+            if (a + b + c) % 3 == 0:
+                ok, r = call(lambda x, y, z: C.opposite_face(x, y, z, return_inds=True), u, v, F)
+            else:
+                ok, r = call(C.opposite_face, u, v, F, True)
             if ok:
                 if F == f1 and f1 is not None:
                     of = f2
@@ -220,10 +293,36 @@ def do_query(m, ref, medges, eid, sort_on, q, ctx, where):
         fl = list(ref.F[f])
         rnd = random.Random(b)
         rnd.shuffle(fl)
+        form = face_id_form(q)
+        own_row = None
         if c % 4 == 0:
-            # a vertex tuple that is (most likely) not a face
-            fl = [x % nV for x in (a, b, c)]
-        ok, r = call(C.face_id, *fl)
+            # a vertex tuple that is (most likely) not a face: arbitrary vertices, a face without one of its vertices, a face and one more vertex
+            variant = NONFACE_VARIANTS[(c // 4 // len(FACE_ID_FORMS)) % len(NONFACE_VARIANTS)]
+            if variant == "face-minus-one-vertex":
+                fl = fl[1:]
+            elif variant == "face-plus-one-vertex" and len(set(ref.F[f])) < nV:
+                others = [x for x in range(nV) if x not in ref.F[f]]
+                fl.insert(rnd.randrange(len(fl) + 1), others[b % len(others)])
+            else:
+                variant = "arbitrary-triple"
+                fl = [x % nV for x in (a, b, c)]
+            if in_sequence: ctx.label("seq:face_id-non-face=" + variant)
+        elif form == "own-row":
+            # the mesh's own row of that face, exactly as the face container hands it out
+            ok, own_row = ctx.call(sig, lambda: m.faces[f])
+            if not ok: return
+            fl = list(ref.F[f])
+        if in_sequence: ctx.label("seq:face_id-arg=" + form)
+        elems = fl if conv is None or form == "own-row" else [conv(x) for x in fl]
+        fl = [int(x) for x in fl]
+        args = face_id_args(form, elems, own_row, rnd)
+        ok, r = ctx.call(sig, C.face_id, *args)
+        if ok and form in REITERABLE_FORMS and rnd.randrange(3) == 0:
+            # the very same container handed over a second time: it can be read as often as one likes, so the answer is the same
+            ok, r2 = ctx.call(sig, C.face_id, *args)
+            if ok and not ctx.check(r2 == r, sig + ":same-argument-twice",
+                                    f"{where}: face_id of the same {form} of vertices {fl} answered {r!r}, then {r2!r}"):
+                return
         if ok:
             fmap = getattr(ref, "_face_by_key", None)
             if fmap is None:
@@ -232,7 +331,8 @@ def do_query(m, ref, medges, eid, sort_on, q, ctx, where):
                     fmap[key(g)] = k2          # (face vertex sets are pairwise distinct; the last one would win as before)
                 ref._face_by_key = fmap
             exp = fmap.get(key(fl))
-            ctx.check(r == exp, sig, f"{where}: face_id{tuple(fl)} = {r!r}, expected {exp!r}")
+            how = f"face_id{tuple(fl)}" if form == "unpacked" else f"face_id(<{form} of {fl}>)"
+            ctx.check(r == exp, sig, f"{where}: {how} = {r!r}, expected {exp!r} (ids as {id_type_of(getattr(ctx, 'case', None))})")
     elif kind == "edge_id":
         u, v = pick_pair(ref, medges, a, b)
         ok, r = call(C.edge_id, u, v)
@@ -309,6 +409,105 @@ def do_query(m, ref, medges, eid, sort_on, q, ctx, where):
         ok, r = call(m.ith_vertex_of_face, f, i)
         if ok:
             ctx.check(int(r) == ref.F[f][i], sig, f"{where}: ith_vertex_of_face({f},{i}) = {r}")
+    elif kind == "chained":
+        variant = CHAINED[c % len(CHAINED)]
+        if in_sequence: ctx.label("seq:chained=" + variant)
+        sig = "q:chained:" + variant
+        if variant == "half-edge-of-corner":
+            cn = a % nC
+            ok, h = ctx.call(sig, C.corner_to_half_edge, cn)
+            if not ok: return
+            exp = ref.corner_he(cn)
+            if not ctx.check(h is not None and len(h) == 2 and tuple(ints(h)) == exp, sig, f"{where}: corner_to_half_edge({cn}) = {h!r}, face list says {exp!r}"):
+                return
+            ok, r = ctx.call(sig, C.half_edge_to_corner, *h)
+            if ok:
+                ctx.check(r == cn, sig, f"{where}: half_edge_to_corner(*corner_to_half_edge({cn})) = {r!r} (half edge {h!r})")
+            ok, r = ctx.call(sig, C.direct_face, *h)
+            if ok:
+                ctx.check(r == ref.corner_face[cn], sig, f"{where}: direct_face(*corner_to_half_edge({cn})) = {r!r}, the corner is in face {ref.corner_face[cn]}")
+        elif variant == "vertices-of-face":
+            f = a % nF
+            ok, row = ctx.call(sig, C.face_to_vertices, f)
+            if not ok: return
+            if not ctx.check(ints(row) == list(ref.F[f]), sig, f"{where}: face_to_vertices({f}) = {row!r}"):
+                return
+            ok, r = ctx.call(sig, C.face_id, *row)
+            ok2, r2 = ctx.call(sig, C.face_id, row)
+            if ok and ok2:
+                ctx.check(r == f and r2 == f, sig, f"{where}: face_id(*face_to_vertices({f})) = {r!r}, face_id(face_to_vertices({f})) = {r2!r}")
+            i = b % len(row)
+            ok, r = ctx.call(sig, C.in_face_index, f, row[i])
+            if ok:
+                ctx.check(r == i, sig, f"{where}: in_face_index({f}, face_to_vertices({f})[{i}]) = {r!r}")
+            ok, r = ctx.call(sig, C.vertex_to_corner_in_face, row[i], f)
+            if ok:
+                ctx.check(r == ref.corner0[f] + i, sig, f"{where}: vertex_to_corner_in_face(face_to_vertices({f})[{i}], {f}) = {r!r}, expected {ref.corner0[f] + i}")
+        elif variant == "ends-of-edge":
+            if not medges: return
+            e = a % len(medges)
+            ok, pr = ctx.call(sig, (lambda: m.edges[e]) if b % 2 else (lambda: C.edge_to_vertices(e)))
+            if not ok: return
+            if not ctx.check(pr is not None and len(pr) == 2 and tuple(ints(pr)) == medges[e], sig, f"{where}: the ends of edge {e} are given as {pr!r}, edge container says {medges[e]}"):
+                return
+            u, v = medges[e]
+            ok, r = ctx.call(sig, C.edge_id, *pr)
+            ok2, r2 = ctx.call(sig, C.edge_id, pr[1], pr[0])
+            if ok and ok2:
+                ctx.check(r == e and r2 == e, sig, f"{where}: edge_id of the ends {pr!r} of edge {e} = {r!r} / reversed {r2!r}")
+            ok, r = ctx.call(sig, C.other_edge_end, e, pr[0])
+            if ok:
+                ctx.check(r == v, sig, f"{where}: other_edge_end({e}, {pr[0]!r}) = {r!r}, expected {v}")
+            ok, r = ctx.call(sig, m.is_edge_on_border, *pr)
+            if ok:
+                ctx.check(bool(r) == ref.edge_on_border(u, v), sig, f"{where}: is_edge_on_border{tuple(pr)!r} = {r!r}, expected {ref.edge_on_border(u, v)}")
+            ok, r = ctx.call(sig, C.edge_to_faces, *pr)
+            if ok:
+                exp = (ref.direct_face(u, v), ref.direct_face(v, u))
+                ctx.check(r is not None and tuple(r) == exp, sig, f"{where}: edge_to_faces{tuple(pr)!r} = {r!r}, expected {exp!r}")
+        elif variant == "ring-of-vertex":
+            v = a % nV
+            ok, ws = ctx.call(sig, C.vertex_to_vertices, v)
+            ok2, cs = ctx.call(sig, C.vertex_to_corners, v)
+            if not (ok and ok2): return
+            closed, rf, rv = ref.ring(v)
+            if not ctx.check(ws is not None and cs is not None and Counter(ints(ws)) == Counter(rv) and Counter(ints(cs)) == Counter(ref.corner_of(v, f) for f in rf),
+                             sig, f"{where}: vertex_to_vertices({v}) = {ws!r}, vertex_to_corners({v}) = {cs!r}; face list gives {rv} / faces {rf}"):
+                return
+            for w in list(ws):
+                ok, r = ctx.call(sig, C.edge_id, v, w)
+                if ok:
+                    ctx.check(r == eid.get(key(v, int(w))), sig, f"{where}: edge_id({v}, {w!r}) = {r!r} for a neighbour of {v}, expected {eid.get(key(v, int(w)))!r}")
+                ok, r = ctx.call(sig, C.direct_face, v, w)
+                if ok:
+                    ctx.check(r == ref.direct_face(v, int(w)), sig, f"{where}: direct_face({v}, {w!r}) = {r!r}, expected {ref.direct_face(v, int(w))!r}")
+            for cn in list(cs):
+                ok, r = ctx.call(sig, C.corner_to_face, cn)
+                ok2, r2 = ctx.call(sig, C.next_corner, cn)
+                if ok and ok2:
+                    ctx.check(r == ref.corner_face[int(cn)] and r2 == ref.next_corner(int(cn)), sig,
+                              f"{where}: corner {cn!r} of vertex {v}: corner_to_face = {r!r}, next_corner = {r2!r}; expected {ref.corner_face[int(cn)]} / {ref.next_corner(int(cn))}")
+        else:
+            # walk around a face with the library's own answers: next_corner ... back to the start, previous_corner undoes every step
+            f = a % nF
+            ok, cn = ctx.call(sig, C.face_to_first_corner, f)
+            if not ok: return
+            if not ctx.check(cn == ref.corner0[f], sig, f"{where}: face_to_first_corner({f}) = {cn!r}, expected {ref.corner0[f]}"):
+                return
+            cur, refcur = cn, ref.corner0[f]
+            for _ in range(len(ref.F[f])):
+                ok, nx = ctx.call(sig, C.next_corner, cur)
+                if not ok: return
+                refnx = ref.next_corner(refcur)
+                if not ctx.check(nx == refnx, sig, f"{where}: walking around face {f}: next_corner({cur!r}) = {nx!r}, expected {refnx}"):
+                    return
+                ok, bk = ctx.call(sig, C.previous_corner, nx)
+                ok2, fc = ctx.call(sig, C.corner_to_face, nx)
+                if ok and ok2:
+                    if not ctx.check(bk == refcur and fc == f, sig, f"{where}: walking around face {f}: previous_corner({nx!r}) = {bk!r} (expected {refcur}), corner_to_face({nx!r}) = {fc!r}"):
+                        return
+                cur, refcur = nx, refnx
+            ctx.check(cur == cn, sig, f"{where}: {len(ref.F[f])} next_corner steps from corner {cn!r} of face {f} end at {cur!r}")
     else:
         raise AssertionError(kind)
 
@@ -371,8 +570,11 @@ def fn(case, ctx):
         raise AssertionError("invalid generated case: " + err)
     for t in case.get("tags", []):
         ctx.label(t)
-    ctx.label("sort=" + str(case["sort"]), "via=" + str(case.get("via")), "ids=" + ("numpy" if case.get("np_ids") else "int"), "form=" + case.get("form", "list"))
+    ctx.label("sort=" + str(case["sort"]), "via=" + str(case.get("via")), "ids=" + id_type_of(case), "form=" + case.get("form", "list"))
     ctx.label("first=" + case["queries"][0][0])
+    if case["queries"][0][0] == "face_id":
+        ctx.label("first=face_id:" + ("one-shot-iterator" if face_id_form(case["queries"][0]) in ONE_SHOT_FORMS else
+                                      "unpacked" if face_id_form(case["queries"][0]) == "unpacked" else "one-container"))
     if case.get("pre_border"): ctx.label("pre-existing-border-attribute=" + case["pre_border"])
     if case.get("dup_warn"): ctx.label("duplicate-attribute-switch-on")
     has_inner = any(not ref.edge_on_border(*e) for e in ref.uedges)
@@ -391,8 +593,9 @@ def fn(case, ctx):
     # 2. full sweep of every kind over every element, kinds in shuffled order, on a second fresh mesh
     m2 = build(case)
     rnd = random.Random(case["sweep_seed"])
-    kinds = list(KINDS)
+    kinds = [k for k in KINDS if k != "chained"]
     rnd.shuffle(kinds)
+    kinds.insert(random.Random(case["sweep_seed"] + 7919).randrange(len(kinds) + 1), "chained")   # (keeps the order of the other kinds of saved cases)
     nV, nF, nC, nE = len(V), len(F), ref.nC, len(medges)
     for kind in kinds:
         if kind in ("next_corner", "previous_corner", "opposite_corner", "corner_to_half_edge", "corner_to_face"):
@@ -412,7 +615,18 @@ def fn(case, ctx):
         elif kind == "in_face_index":
             qs = [[kind, f, j, 1] for f in range(nF) for j in range(len(F[f]))] + [[kind, f, rnd.randrange(nV), 0] for f in range(nF)]
         elif kind == "face_id":
-            qs = [[kind, f, rnd.randrange(100), 1] for f in range(nF)] + [[kind, rnd.randrange(10 ** 4), rnd.randrange(10 ** 4), 4 * rnd.randrange(100)] for _ in range(4)]
+            # every face: unpacked, as one re-iterable container, as one one-shot iterator (forms drawn per face); tuples that are no face in drawn forms
+            nfo = len(FACE_ID_FORMS)
+            qs = []
+            for f in range(nF):
+                for form in ("unpacked", rnd.choice(REITERABLE_FORMS), rnd.choice(ONE_SHOT_FORMS)):
+                    qs.append([kind, f, rnd.randrange(100), 4 * (FACE_ID_FORMS.index(form) + nfo * rnd.randrange(50)) + 1])
+            qs += [[kind, rnd.randrange(10 ** 4), rnd.randrange(10 ** 4), 4 * rnd.randrange(10 ** 4)] for _ in range(9)]
+            rnd.shuffle(qs)
+        elif kind == "chained":
+            qs = ([[kind, c, 0, 0] for c in range(nC)] + [[kind, f, rnd.randrange(8), 1] for f in range(nF)] + [[kind, e, rnd.randrange(2), 2] for e in range(nE)]
+                  + [[kind, v, 0, 3] for v in range(nV)] + [[kind, f, 0, 4] for f in range(nF)])
+            rnd.shuffle(qs)
         elif kind in ("other_edge_end",):
             qs = [[kind, e, rnd.randrange(nV), c] for e in range(nE) for c in (0, 1, 2)]
         elif kind == "edge_to_vertices":
